@@ -102,7 +102,19 @@ func (b *BFS[S, O]) Run(c *Ctx, inits []S, fail func(f *Failure, trace []O)) {
 						fail(f, tr)
 						continue
 					}
-					results[i] = append(results[i], bfsSucc[S, O]{s: ns, key: b.Key(ns), parent: pk, op: op})
+					k := b.Key(ns)
+					if _, ok := b.seen[k]; ok { // seen is read-only during the parallel phase
+						if b.OnMerge != nil {
+							if f := b.OnMerge(k, ns); f != nil {
+								mu.Lock()
+								tr := append(b.Trace(pk), op)
+								mu.Unlock()
+								fail(f, tr)
+							}
+						}
+						continue
+					}
+					results[i] = append(results[i], bfsSucc[S, O]{s: ns, key: k, parent: pk, op: op})
 				}
 			}
 			mu.Lock()
